@@ -240,6 +240,21 @@ def s3_cases(tier: str, n: grammar.Names) -> list[tuple[tuple, dict[str, Any]]]:
             prog = tuple(("for", "i", V("it"), o, (("out", V("i")),), (("text", "-"),)) for o in combo) + (("for", "j", V("it"), (("offset", "continue"),), (("out", V("j")),), None),)
             cases.append((prog, {"it": it}))
             cases.append((prog[:-1] + (("for", "i", V("it"), (("offset", "continue"),), (("out", V("i")),), (("text", "~"),)),), {"it": it}))
+    # offset: continue after the iterable became SHORTER than the recorded stop index: rows of decreasing length under
+    # one inner loop, and a variable re-bound to a shorter array between two loops of the same text
+    rows_sets = ([[1, 2, 3, 4, 5], [6, 7, 8], [1, 2, 3, 4, 5, 6]], [[1, 2, 3], [], [4]], [[1], [1, 2], [1, 2, 3]])
+    for rows in rows_sets:
+        for o in ((("offset", "continue"),), (("offset", "continue"), ("limit", I(2)))):
+            inner = ("for", "c", V("row"), o, (("out", V("c")),), (("text", "none"),))
+            cases.append(((("for", "row", V("rows"), (), (inner, ("text", ";")), None),), {"rows": rows}))
+    for long_, short in (([1, 2, 3, 4, 5], [9, 8]), ([1, 2, 3], []), ([1, 2], [1, 2])):
+        for first in ((("limit", I(4)),), (), (("limit", I(2)),)):
+            prog = (
+                ("assign", "a", V("long")), ("for", "x", V("a"), first, (("out", V("x")),), None), ("text", "|"),
+                ("assign", "a", V("short")), ("for", "x", V("a"), (("offset", "continue"),), (("out", V("x")),), (("text", "none"),)), ("text", "|"),
+                ("for", "x", V("a"), (("offset", "continue"),), (("out", V("x")),), (("text", "none"),)),
+            )  # fmt: skip
+            cases.append((prog, {"long": long_, "short": short}))
     # two-level nests: parentloop
     for it1, it2 in itertools.product(([1, 2], [], [1]), ([7, 8], [], "ab")):
         body2 = (("out", V("forloop", "parentloop", "index")), ("out", V("forloop", "index")), ("out", V("forloop", "parentloop", "last")), ("out", V("i")), ("out", V("j")), ("text", " "))
@@ -359,6 +374,14 @@ def _flat_spaces(tier: str, seed: int) -> dict[str, list]:
     l2 = grammar.blocks(n, [(s,) for s in l1s[:: (3 if tier == "quick" else 1)]])
     spaces["S5"] = [((st,), None) for st in l2] + [((st,), None) for st in grammar.liquid_wrap(list(grammar.level1(seed)))]
     spaces["S5"] += [((st,), None) for st in grammar.mixed_blank_nests(seed, tier == "quick")]
+    # the same nests with an interrupt as the innermost statement, followed by a probe of every pool name and forloop:
+    # whatever the nest pushed on the scope must be gone afterwards, however it was left
+    after = (("text", "|"), ("out", V(n.i)), ("out", V(n.a)), ("out", V(n.b)), ("out", V(n.g)), ("out", V("forloop", "index")), ("out", V("forloop")))
+    for leaf in ((("out", V(n.i)), ("break",)), (("out", V(n.a)), ("continue",)), (("if", ((V(n.g), (("break",),)),), None), ("out", V(n.i)))):
+        inner_blocks = [st for st in grammar.blocks(n, [leaf]) if st[0] in ("with", "if", "unless", "case", "capture", "for")]
+        for outer in grammar.blocks(n, [(st,) for st in inner_blocks]):
+            if outer[0] == "for":
+                spaces["S5"].append(((outer,) + after, None))
     # S6: value-producing composites in every expression site
     wide = grammar.wide_exprs(n, tier)
     spaces["S6"] = [(prog, None) for e in wide for prog in grammar.expr_sites(n, e)] + [(prog, None) for p in grammar.wide_primitives(n) for prog in grammar.prim_sites(n, p)]
